@@ -6,7 +6,7 @@ from .build import ensure_driver, build_facts, InfraError
 def main():
     try:
         ensure_driver(verbose=True)
-        for cfg in ("default", "nofeat", "allfeat"):
+        for cfg in ("default", "minimal"):
             res = build_facts(cfg)
             print("facts", cfg, "ok")
             import os
